@@ -2,6 +2,7 @@
 mod c01;
 mod c02;
 mod c04;
+mod c08;
 mod c09;
 mod c10;
 mod c11;
@@ -69,6 +70,13 @@ fn props() -> Vec<Prop> {
         thorough_cases: 600,
         gen: c04::gen_case,
         run: c04::run_case,
+    }, Prop {
+        id: "C08",
+        rule: "int-grid: every integer pair in a window (exhaustive) through rx_int_range vs the Lean model's printed pattern, a sub-sample through the whole engine; int-random: bounds around powers of ten up to 10^18 with inclusive/exclusive/missing bounds; dec-random: decimal bounds with up to three fractional digits; mult-random: multipleOf combined with bounds; for each schema every literal of a grid in and around the bounds (0-4 fractional digits, trailing zeros, shorter forms) is accepted iff its exact value satisfies the keywords; distinct non-trivial = distinct schemas that compiled",
+        quick_cases: 8,
+        thorough_cases: 60,
+        gen: c08::gen_case,
+        run: c08::run_case,
     }, Prop {
         id: "C09",
         rule: "exhaustive: every 0 <= m <= n <= N (quick N=34, thorough N=60; {0,0} excluded as a documented syntax error) at rule, terminal and regex level with every count 0..n+3, the unbounded forms {m,}, *, +, ?; JSON minItems/maxItems, minLength/maxLength with 1-4 byte characters and escapes, min/maxProperties, prefixItems, over a grid of (m,n); distinct non-trivial = distinct (level, m, n)",
